@@ -30,8 +30,56 @@ def is_pow2(v):
 class Dom:
     """Abstract transfer for integer expressions."""
 
+    unit = None
+    _memo = {}
+    _depth = 0
+
     def __init__(self, fn):
         self.fn = fn
+
+    def call_value(self, e, st):
+        """Abstract return value of a call to a member function of the same class whose body is available: the join of the
+        values its return statements can produce (callee analysed with the abstract values of the integer arguments)."""
+        fnq = e.get("fn") or ""
+        cls = (self.fn.get("full") or "").split("::")[0]
+        if Dom.unit is None or not fnq.startswith(cls + "::") or Dom._depth > 3:
+            return "T"
+        cands = [d for d in Dom.unit.functions.get(fnq, []) if d.get("body") and not d.get("dependent")]
+        if len(cands) != 1:
+            return "T"
+        callee = cands[0]
+        init = {}
+        for p2, a in zip(callee["params"], e["a"]):
+            if "int" in p2["t"] or "long" in p2["t"]:
+                init[("l", p2["id"], p2["n"])] = self.val(a, st)
+        for k, v in dict(st).items():
+            if k[0] == "m":
+                init[k] = v
+        key = (fnq, tuple(sorted(init.items())))
+        if key in Dom._memo:
+            return Dom._memo[key]
+        Dom._memo[key] = "T"
+        Dom._depth += 1
+        try:
+            g, ex, dom = analyse(callee, init)
+        finally:
+            Dom._depth -= 1
+        outs = set()
+        for nd in g.nodes:
+            if nd.kind == "return" and nd.ast.get("x") is not None:
+                for st2 in ex.at.get(nd.id, ()):
+                    outs.add(dom.val(nd.ast["x"], st2[0]))
+        r = "T"
+        if outs and outs <= {"P2"}:
+            r = "P2"
+        elif outs and outs <= {"P", "P2"}:
+            r = "P"
+        elif outs and outs <= {"Z"}:
+            r = "Z"
+        elif outs and outs <= {"P", "P2", "PZ", "Z"}:
+            r = "PZ"
+        Dom._memo[key] = r
+        return r
 
     def key(self, e):
         e = C.strip_casts(e)
@@ -61,6 +109,8 @@ class Dom:
             if b in ("P", "P2") and a in ("P", "P2", "PZ", "Z"):
                 return "P"
             return "T"
+        if e.get("k") == "Call" and e.get("fn") and not e.get("op"):
+            return self.call_value(e, st)
         if e.get("k") == "Bin" and e["op"] == ">>" and C.const_int(e["b"]) is not None:
             a = self.val(e["a"], st)
             return self.shift(a)
@@ -88,6 +138,23 @@ def analyse(fn, init):
         if node.kind == "branch":
             e = C.strip_casts(node.ast)
             outs = None
+            # boolean flag locals set from literals: a test of the flag prunes the impossible edge
+            fk = dom.key(e) if e.get("k") == "Ref" else None
+            if fk is not None and dict(vals).get(fk) in ("B0", "B1"):
+                return [(dict(vals)[fk] == "B1", state)]
+            if e.get("k") == "Bin" and e["op"] in (">", ">=") and C.const_int(e["b"]) in (1, 2) and dom.key(e["a"]) is not None:
+                c0 = C.const_int(e["b"])
+                if (e["op"] == ">" and c0 == 1) or (e["op"] == ">=" and c0 == 2):
+                    k = dom.key(e["a"])
+                    cur = dict(vals).get(k, "T")
+                    tv = {"PZ": "P2", "P": "P2", "P2": "P2", "Z": None, "T": "T"}[cur]
+                    fv = {"PZ": "PZ", "P": "P", "P2": None, "Z": "Z", "T": "T"}[cur]
+                    res = []
+                    if tv is not None:
+                        res.append((True, (setv(vals, k, tv), facts)))
+                    if fv is not None:
+                        res.append((False, (setv(vals, k, fv), facts)))
+                    return res
             if e.get("k") == "Bin" and e["op"] in ("==", "!=", ">", "<") and C.const_int(e["b"]) == 0:
                 a = C.strip_casts(e["a"])
                 k = dom.key(a)
@@ -116,6 +183,10 @@ def analyse(fn, init):
                 for d in node.ast["d"]:
                     if d.get("init") is not None:
                         k = ("l", d["id"], d["n"])
+                        bi = C.strip_casts(d["init"])
+                        if bi.get("k") == "Bool":
+                            vals = setv(vals, k, "B1" if bi["v"] else "B0")
+                            continue
                         vals = setv(vals, k, dom.val(d["init"], vals))
                         facts = frozenset(f for f in facts if k not in f)
                         # alias facts: a const local defined as MAX - _current_time
@@ -129,7 +200,9 @@ def analyse(fn, init):
                 k = dom.key(e["a"])
                 if k is not None:
                     cur = dict(vals).get(k, "T")
-                    if e["op"] == "=":
+                    if e["op"] == "=" and C.strip_casts(e["b"]).get("k") == "Bool":
+                        nv = "B1" if C.strip_casts(e["b"])["v"] else "B0"
+                    elif e["op"] == "=":
                         nv = dom.val(e["b"], vals)
                     elif e["op"] == ">>=" and C.const_int(e["b"]) is not None:
                         nv = cur
@@ -143,6 +216,8 @@ def analyse(fn, init):
                     # writing x or _current_time invalidates divisibility / remaining-time facts about them
                     facts = frozenset(f for f in facts if k not in f and
                                       not (k == ("m", "_current_time") and f[0] in ("div", "remaining")))
+                    if k == ("m", "_current_time"):
+                        facts = frozenset(facts | {("moved",)})
             elif e.get("k") == "Un" and e["op"] in ("pre++", "post++", "pre--", "post--"):
                 k = dom.key(e["x"])
                 if k is not None:
@@ -166,6 +241,8 @@ def run(chk, prog):
     chk.assumptions += ["unsigned 64-bit arithmetic; TIMELINE_MAX_INTEGER_TIMELINE_SIZE is 2^63 as defined in the header",
                         "to_physical_time is the affine map checked by T5 with a positive first factor (end > start)"]
     u = prog.umbrella
+    Dom.unit = u
+    Dom._memo = {}
     chk.analysed(unit="umbrella")
     rec = u.record("TimeLine")
     fields = [f["n"] for f in rec["fields"]]
@@ -271,13 +348,41 @@ def run(chk, prog):
                     "the step starts at the configured maximum and is only ever halved", where(adv),
                     "initial value %s, other updates %s" % (C.pretty(first.get("init")) if first else None, bad),
                     function=adv["full"], construct="step monotone")
-    for node in g.nodes:
-        if node.kind == "return" and C.const_int(node.ast.get("x")) == 0:
-            reach_add = adds and node.id in g.reachable(adds[0].id)
-            n += 1
-            chk.require(not reach_add, "T4", "an early stop (return false, line %s) does not move time" % node.line(),
-                        where(node.ast, adv), "a `return false` is reachable after _current_time was advanced",
-                        function=adv["full"], construct="early exit")
+    def ret_value(e, vals):
+        """Value of a returned boolean expression under the abstract state: True / False / 'lt_end' / None (unknown)."""
+        e = C.strip_casts(e)
+        if e.get("k") == "Bool":
+            return bool(e["v"])
+        v = C.const_int(e)
+        if v is not None:
+            return bool(v)
+        if e.get("k") == "Ref":
+            fv = dict(vals).get(dom.key(e))
+            return True if fv == "B1" else (False if fv == "B0" else None)
+        if e.get("k") == "Bin" and e["op"] == "&&":
+            a2, b2 = ret_value(e["a"], vals), ret_value(e["b"], vals)
+            if a2 is False or b2 is False:
+                return False
+            if a2 is True:
+                return b2
+            if b2 is True:
+                return a2
+            return None
+        if e.get("k") == "Bin" and e["op"] == "<" and C.member_name(e["a"]) == "_current_time" and \
+                C.const_int(e["b"]) == 2 ** 63:
+            return "lt_end"
+        return None
+    ret_nodes = [nd for nd in g.nodes if nd.kind == "return" and nd.ast.get("x") is not None]
+    for node in ret_nodes:
+        sts = ex.at.get(node.id, ())
+        failing = [st for st in sts if ret_value(node.ast["x"], st[0]) is False]
+        if not failing:
+            continue
+        moved = [st for st in failing if ("moved",) in st[1]]
+        n += 1
+        chk.require(not moved, "T4", "an early stop (result false, line %s) does not move time" % node.line(),
+                    where(node.ast, adv), "a path returns false after _current_time was advanced (lines %s)" %
+                    (ex.path_lines(node.id, moved[0]) if moved else ""), function=adv["full"], construct="early exit")
     # ---- T5 reported values ------------------------------------------------------------------
     conv = Converter()
     env = Env()
@@ -320,16 +425,23 @@ def run(chk, prog):
         chk.require(C.is_call(to, name="to_physical_time") and C.member_name(to["a"][0]) == "_current_time", "T5",
                     "the reported time is the image of the updated integer time", where(adv),
                     "reported time is %s" % C.pretty(to), function=adv["full"], construct="reported time")
-        rets = [nd for nd in g.nodes if nd.kind == "return" and nd.id in after]
-        okr = len(rets) == 1
-        if okr:
-            e = C.strip_casts(rets[0].ast["x"])
-            okr = e.get("k") == "Bin" and e["op"] == "<" and C.member_name(e["a"]) == "_current_time" and \
-                C.const_int(e["b"]) == 2 ** 63
+        okr = True
+        detail = ""
+        seen_success = False
+        for node in ret_nodes:
+            for st in ex.at.get(node.id, ()):
+                if ("moved",) not in st[1]:
+                    continue
+                seen_success = True
+                rv = ret_value(node.ast["x"], st[0])
+                if rv != "lt_end":
+                    okr = False
+                    detail = "on the path through lines %s the time was advanced but the result is `%s`" % (
+                        ex.path_lines(node.id, st), C.pretty(node.ast["x"]))
         n += 1
-        chk.require(okr, "T5", "advance() returns `time < end` after the update", where(adv),
-                    "the success return is not `_current_time < 2^63`", function=adv["full"], construct="result flag")
-    chk.floor("T1-T5", n, 16)
+        chk.require(okr and seen_success, "T5", "advance() returns `time < end` after the update", where(adv),
+                    detail or "no path advances the time", function=adv["full"], construct="result flag")
+    chk.floor("T1-T5", n, 13)
 
     # ---- T6: save / restore (the C09 rules, applied to TimeLine) -----------------------------------
     from . import c09
